@@ -9,7 +9,7 @@
         fails alike PROVIDED NO BLOCK OF THE BRANCH CARRIES A CACHED FAILED MARK ([clean]), and leaves the same
         protecting multiset;
       - concludes that validation outcome and score of a given candidate are the same in any two reachable states
-        with the same active chain, and derives the verdict of the general fork case of comparePopScore.
+        with the same active chain (the verdict of comparePopScore as a whole: C01Fork/C01Alone/C01Outer/C01Full.v).
 
     Adapters (Section variables): [cfg] scoring table and finality delay, [ki] keystone interval, [ta]
     EnableTimeAdjustment, [alt_time j] timestamp of ALT block j, [spv refs b] height of SP block b on the best SP
